@@ -287,6 +287,14 @@ Definition pfsb_after {O} (r : result O) (k : nat) : Z :=
   | S k' => match nth_error (trace r) k' with Some (_, _, p) => p | None => -1 end
   end.
 
+(* (PreviousFullyScannedBytes, FullyScannedBytes) once Scan has returned false at the end of a
+   complete scan: every delivered block was taken, the EOF marker is not *)
+Fixpoint final_offsets {O} (p c : Z) (ds : list (Z * list O)) : Z * Z :=
+  match ds with
+  | [] => (p, c)
+  | (off, _) :: r => final_offsets c off r
+  end.
+
 (* data[off:] as frames: Some rest when [off] is the start of a frame (or the end), None otherwise *)
 Fixpoint seek {O} (off : Z) (fs : list (frame O)) : option (list (frame O)) :=
   if off =? 0 then Some fs else
